@@ -17,6 +17,7 @@ import sys
 REPO = os.environ.get("VERIF_REPO", "/repo")
 VERIF = os.path.dirname(os.path.dirname(os.path.abspath(__file__)))
 OUT = os.path.join(VERIF, "lean", "ScyllaVerif", "Generated", "Constants.lean")
+OUT_TABLES = os.path.join(VERIF, "lean", "ScyllaVerif", "Generated", "Tables.lean")
 
 
 class ExtractError(Exception):
@@ -250,20 +251,163 @@ EXTRACTORS = [
 ]
 
 
+
+# ------------------------------------------------------------------------------------------------
+# second generated file: response-side and routing-side tables (Generated/Tables.lean)
 # ------------------------------------------------------------------------------------------------
 
-def render():
+def match_arms(rel, header_re, arm_re, what, src=None):
+    """All `arm_re` matches inside the block that follows header_re (source order)."""
+    src = strip_comments(read(rel)) if src is None else src
+    body = block_after(src, header_re, rel)
+    ms = re.findall(arm_re, body)
+    if not ms:
+        raise ExtractError("%s: no arms found for %s" % (rel, what))
+    return ms
+
+
+def nat_table(name, pairs):
+    """List (Nat × String), keyed by code."""
+    body = ", ".join('(%s, "%s")' % (nat(v), k) for k, v in pairs)
+    return (name, "List (Nat × String)", "[" + body + "]")
+
+
+def unique_codes(pairs, what):
+    if len(set(v for _, v in pairs)) != len(pairs) or len(set(k for k, _ in pairs)) != len(pairs):
+        raise ExtractError("%s: duplicate code or name" % what)
+    return pairs
+
+
+def x_db_error_codes():
+    rel = "scylla-cql-core/src/frame/response/error.rs"
+    arms = match_arms(rel, r"\bmatch\s+code\s*\{", r"(0x[0-9A-Fa-f_]+)\s*=>\s*DbError::([A-Za-z0-9_]+)", "ERROR codes")
+    pairs = unique_codes([(n, parse_int(c, rel)) for c, n in arms], "ERROR codes")
+    need = ["ServerError", "ProtocolError", "AuthenticationError", "Unavailable", "Overloaded", "IsBootstrapping",
+            "TruncateError", "WriteTimeout", "ReadTimeout", "ReadFailure", "FunctionFailure", "WriteFailure",
+            "SyntaxError", "Unauthorized", "Invalid", "ConfigError", "AlreadyExists", "Unprepared"]
+    have = [k for k, _ in pairs]
+    for n in need:
+        if n not in have:
+            raise ExtractError("%s: ERROR code arm for DbError::%s not found" % (rel, n))
+    return ("ERROR message codes (Error::deserialize `match code`)", [rel], [nat_table("dbErrorCodes", pairs)])
+
+
+def x_column_type_ids():
+    rel = "scylla-cql/src/frame/response/result.rs"
+    src = strip_comments(read(rel))
+    fn = block_after(src, r"\bfn\s+deser_type_generic\b[^{]*\{", rel)
+    body = block_after(fn, r"\bmatch\s+id\s*\{", rel)
+    natives = unique_codes([(n, parse_int(c, rel)) for c, n in
+                            re.findall(r"(0x[0-9A-Fa-f_]+)\s*=>\s*Native\(([A-Za-z0-9_]+)\)", body)], "native type ids")
+    if len(natives) < 20:
+        raise ExtractError("%s: expected at least 20 native type ids, found %d" % (rel, len(natives)))
+    # structural arms: the code and the first constructor keyword found in the arm's text
+    struct = []
+    arms = list(re.finditer(r"(0x[0-9A-Fa-f_]+)\s*=>", body))
+    for i, m in enumerate(arms):
+        text = body[m.end(): arms[i + 1].start() if i + 1 < len(arms) else len(body)]
+        if re.match(r"\s*Native\(", text):
+            continue
+        kinds = [("List", r"CollectionType::List\("), ("Map", r"CollectionType::Map\("), ("Set", r"CollectionType::Set\("),
+                 ("UserDefinedType", r"\bUserDefinedType\s*\{"), ("Tuple", r"\bTuple\("), ("Custom", r"read_custom_type\(")]
+        found = [k for k, pat in kinds if re.search(pat, text)]
+        if len(found) != 1:
+            raise ExtractError("%s: cannot classify type-id arm %s (%s)" % (rel, m.group(1), found))
+        struct.append((found[0], parse_int(m.group(1), rel)))
+    unique_codes(struct, "structural type ids")
+    if sorted(k for k, _ in struct) != ["Custom", "List", "Map", "Set", "Tuple", "UserDefinedType"]:
+        raise ExtractError("%s: structural type-id arms are %s" % (rel, struct))
+    # the serializer side (`column_type_id`)
+    ser = block_after(block_after(src, r"\bfn\s+column_type_id\b[^{]*\{", rel), r"\bmatch\s+typ\s*\{", rel)
+    ser_n = [(n, parse_int(c, rel)) for n, c in re.findall(r"ColumnType::Native\(([A-Za-z0-9_]+)\)\s*=>\s*(0x[0-9A-Fa-f_]+)", ser)]
+    ser_s = []
+    for name, pat in [("List", r"CollectionType::List\(_\)\s*,\s*\.\.\s*\}\s*=>\s*(0x[0-9A-Fa-f_]+)"),
+                      ("Map", r"CollectionType::Map\(_,\s*_\)\s*,\s*\.\.\s*\}\s*=>\s*(0x[0-9A-Fa-f_]+)"),
+                      ("Set", r"CollectionType::Set\(_\)\s*,\s*\.\.\s*\}\s*=>\s*(0x[0-9A-Fa-f_]+)"),
+                      ("UserDefinedType", r"ColumnType::UserDefinedType\s*\{\s*\.\.\s*\}\s*=>\s*(0x[0-9A-Fa-f_]+)"),
+                      ("Tuple", r"ColumnType::Tuple\(_\)\s*=>\s*(0x[0-9A-Fa-f_]+)")]:
+        ser_s.append((name, parse_int(one(rel, pat, "column_type_id " + name, ser), rel)))
+    depth = one(rel, r"\bconst\s+MAX_TYPE_NESTING_DEPTH\s*:\s*usize\s*=\s*([0-9_]+)\s*;", "MAX_TYPE_NESTING_DEPTH", src)
+    return ("column type ids: parser (deser_type_generic) and serializer (column_type_id); nesting limit", [rel],
+            [nat_table("nativeTypeIds", natives), nat_table("structTypeIds", struct),
+             nat_table("nativeTypeIdsSer", ser_n), nat_table("structTypeIdsSer", ser_s),
+             ("maxTypeNestingDepth", "Nat", str(parse_int(depth, rel)))])
+
+
+def x_result_kinds():
+    rel = "scylla-cql/src/frame/response/result.rs"
+    src = strip_comments(read(rel))
+    fn = block_after(src, r"\bpub\s+fn\s+deserialize_with_features\b[^{]*\{", rel)
+    arms = re.findall(r"(0x[0-9A-Fa-f_]+)\s*=>\s*([A-Za-z]+)", fn)
+    pairs = unique_codes([(n, parse_int(c, rel)) for c, n in arms], "RESULT kinds")
+    if [k for k, _ in pairs] != ["Void", "Rows", "SetKeyspace", "Prepared", "SchemaChange"]:
+        raise ExtractError("%s: RESULT kinds are %s" % (rel, pairs))
+    # result metadata flag bits: every `let <name> = ... flags & 0x000N != 0` must agree across the file
+    flags = {}
+    for name, lit in re.findall(r"\blet\s+(global_tables_spec|has_more_pages|no_metadata|metadata_changed)\s*=[^;]*?flags\s*&\s*(0x[0-9A-Fa-f_]+)\s*!=\s*0", src):
+        v = parse_int(lit, rel)
+        if flags.setdefault(name, v) != v:
+            raise ExtractError("%s: metadata flag %s has two different bit values" % (rel, name))
+    for n in ["global_tables_spec", "has_more_pages", "no_metadata", "metadata_changed"]:
+        if n not in flags:
+            raise ExtractError("%s: metadata flag %s not found" % (rel, n))
+    return ("RESULT kinds and result-metadata flag bits", [rel],
+            [nat_table("resultKinds", pairs)] +
+            [("resultFlag_%s" % n, "Nat", nat(flags[n])) for n in ["global_tables_spec", "has_more_pages", "no_metadata", "metadata_changed"]])
+
+
+def x_murmur3():
+    rel = "scylla/src/routing/partitioner.rs"
+    src = strip_comments(read(rel))
+    imp = block_after(src, r"\bimpl\s+Murmur3PartitionerHasher\s*\{", rel)
+    def big(pat, what, text=imp):
+        return parse_int(one(rel, pat, what, text), rel)
+    c1 = big(r"\bconst\s+C1\s*:\s*Wrapping<i64>\s*=\s*Wrapping\(\s*(0x[0-9A-Fa-f_]+)_u64\s+as\s+i64\s*\)", "C1")
+    c2 = big(r"\bconst\s+C2\s*:\s*Wrapping<i64>\s*=\s*Wrapping\(\s*(0x[0-9A-Fa-f_]+)_u64\s+as\s+i64\s*\)", "C2")
+    cap = big(r"\bconst\s+BUF_CAPACITY\s*:\s*usize\s*=\s*([0-9_]+)\s*;", "BUF_CAPACITY")
+    h16 = block_after(imp, r"\bfn\s+hash_16_bytes\b[^{]*\{", rel)
+    a1 = big(r"self\.h1\s*=\s*self\.h1\s*\*\s*Wrapping\(5\)\s*\+\s*Wrapping\(\s*(0x[0-9A-Fa-f_]+)\s*\)", "h1 addend", h16)
+    a2 = big(r"self\.h2\s*=\s*self\.h2\s*\*\s*Wrapping\(5\)\s*\+\s*Wrapping\(\s*(0x[0-9A-Fa-f_]+)\s*\)", "h2 addend", h16)
+    rots = [parse_int(x, rel) for x in re.findall(r"Self::rotl64\(\s*(?:k1|k2|self\.h1|self\.h2)\s*,\s*([0-9]+)\s*\)", h16)]
+    if len(rots) != 4:
+        raise ExtractError("%s: expected 4 rotations in hash_16_bytes, found %s" % (rel, rots))
+    fm = block_after(imp, r"\bfn\s+fmix\b[^{]*\{", rel)
+    fms = [parse_int(x, rel) for x in re.findall(r"k\s*\*=\s*Wrapping\(\s*(0x[0-9A-Fa-f_]+)_u64\s+as\s+i64\s*\)", fm)]
+    shifts = [parse_int(x, rel) for x in re.findall(r">>\s*([0-9]+)", fm)]
+    if len(fms) != 2 or len(shifts) != 3:
+        raise ExtractError("%s: fmix has %d multipliers and %d shifts" % (rel, len(fms), len(shifts)))
+    def u64(n):
+        return "0x%016X" % n
+    def nl(xs):
+        return "[" + ", ".join(str(x) for x in xs) + "]"
+    return ("Murmur3 (Cassandra variant) constants of Murmur3PartitionerHasher", [rel],
+            [("murmur_C1", "Nat", u64(c1)), ("murmur_C2", "Nat", u64(c2)), ("murmur_BUF_CAPACITY", "Nat", str(cap)),
+             ("murmur_h1_addend", "Nat", "0x%08X" % a1), ("murmur_h2_addend", "Nat", "0x%08X" % a2),
+             ("murmur_block_rotations", "List Nat", nl(rots)),
+             ("murmur_fmix_multipliers", "List Nat", "[" + ", ".join(u64(x) for x in fms) + "]"),
+             ("murmur_fmix_shifts", "List Nat", nl(shifts))])
+
+
+EXTRACTORS_TABLES = [
+    x_db_error_codes,
+    x_column_type_ids,
+    x_result_kinds,
+    x_murmur3,
+]
+
+# ------------------------------------------------------------------------------------------------
+
+def render(extractors, header):
     lines = [
         "/-",
         "GENERATED by tools/extract_tables.py from the Rust sources in /repo - DO NOT EDIT.",
-        "Rewritten on every check run; the models use these definitions, the property theorems state the protocol's",
-        "literal values, so a changed constant in the source breaks a proof obligation.",
+    ] + header + [
         "-/",
         "namespace ScyllaVerif.Generated",
         "",
     ]
     seen = set()
-    for x in EXTRACTORS:
+    for x in extractors:
         title, rels, defs = x()
         lines.append("/-! ### %s  (%s) -/" % (title, ", ".join(rels)))
         for name, typ, val in defs:
@@ -276,18 +420,29 @@ def render():
     return "\n".join(lines) + "\n"
 
 
-def main():
-    text = render()
-    os.makedirs(os.path.dirname(OUT), exist_ok=True)
+def write_if_changed(path, text):
+    os.makedirs(os.path.dirname(path), exist_ok=True)
     old = None
-    if os.path.exists(OUT):
-        with open(OUT, encoding="utf-8") as f:
+    if os.path.exists(path):
+        with open(path, encoding="utf-8") as f:
             old = f.read()
     if old != text:  # keep the mtime (and lake's cache) when nothing changed
-        tmp = OUT + ".tmp%d" % os.getpid()
+        tmp = path + ".tmp%d" % os.getpid()
         with open(tmp, "w", encoding="utf-8") as f:
             f.write(text)
-        os.replace(tmp, OUT)
+        os.replace(tmp, path)
+
+
+def main():
+    write_if_changed(OUT, render(EXTRACTORS, [
+        "Rewritten on every check run; the models use these definitions, the property theorems state the protocol's",
+        "literal values, so a changed constant in the source breaks a proof obligation.",
+    ]))
+    write_if_changed(OUT_TABLES, render(EXTRACTORS_TABLES, [
+        "Rewritten on every check run.  Response-side and routing-side tables of the driver; `Props/Tables.lean` proves",
+        "that the hand-written models use exactly these values (and that they are the protocol's), so a changed",
+        "constant in the Rust source breaks a proof obligation of every property whose model depends on it.",
+    ]))
     return 0
 
 
